@@ -567,6 +567,7 @@ impl<'a> Runtime<'a> {
 
     #[inline]
     fn exec_block_with_flow(&mut self, block: BlockRef<'a>) -> Result<ExecFlow<'a>, RuntimeError> {
+        self.check_stack(block.span)?;
         self.push_scope_with_capacity(0, self.frame);
         self.hoist_block_functions(block);
         for stmt in block.stmts {
